@@ -79,8 +79,8 @@ COMPACT = {
     'S3': _CQ + ['isub:arr', 'itruediv:zero', 'imod:objm', 'imod:objz', 'ifloordiv:arrz', 'set:bm:num', 'set:mi:num', 'insd:t', 'deld:t', 'hold:arr', 'unheld'],
     'S0': _CQ + ['iadd:num', 'imul:num', 'iadd:objm', 'set:all:num', 'set:sl:objm', 'insd:t', 'shun:arr', 'ro'],
     'S0d': _CQ + ['iadd:num', 'isub:arr', 'imul:num', 'itruediv:num', 'imod:num', 'ifloordiv:num', 'imod:objz', 'itruediv:objzd', 'deld:t', 'units:km', 'ro', 'q:plus1'],
-    'S3d': _CQ + ['iadd:num', 'imul:num', 'iadd:objd', 'imul:objm', 'set:0:masked', 'delds', 'ro', 'ro:nr', 'shun:arr', 'q:div2', 'holdw', 'q:heldw'],
-    'S23m': _CQ + ['set:0:num', 'set:sl:objm', 'iadd:objm', 'imul:objT', 'shun:arr', 'hold:arr', 'unheld', 'q:mod2', 'q:minus1', 'imod:arrz', 'itruediv:objz'],
+    'S3d': _CQ + ['iadd:num', 'imul:num', 'iadd:objd', 'imul:objm', 'set:0:masked', 'delds', 'ro', 'shun:arr', 'holdw', 'q:heldw'],
+    'S23m': _CQ + ['set:0:num', 'set:sl:objm', 'iadd:objm', 'imul:objT', 'shun:arr', 'hold:arr', 'unheld', 'q:mod2', 'imod:arrz', 'itruediv:objz'],
     'I3': _CQ + ['iand:objm', 'ior:arr', 'ixor:obj', 'iadd:num', 'ifloordiv:obj', 'ifloordiv:objz', 'imod:objm', 'imod:zero', 'insd:t'],
     'I0d': _CQ + ['iand:bool', 'ior:objm', 'iadd:num', 'imul:num', 'deld:t', 'ro'],
     'B3': _CQ + ['iand:objm', 'ior:objm', 'ixor:objm', 'iand:bool', 'ior:arr', 'set:0:masked', 'shun:arr'],
